@@ -1,6 +1,7 @@
 """C02  Immutable downloads never return wrong bytes  (Engine G, fault enumeration).
 
-Files F1 = 2-of-3 / 3 segments (61 bytes) and (thorough) F2 = 3-of-4 / 1 segment + padded tail.
+Files F0 = 2-of-3 / ONE segment (single-leaf hash trees), F1 = 2-of-3 / 3 segments (61 bytes) and
+(thorough) F2 = 3-of-4 / 2 segments with a padded tail.
 For each file, with the damaged share NEEDED (only k-1 other shares exist) and with all other
 shares intact:
  (a) EVERY single-byte flip at every offset of the share file (container header, share header,
@@ -27,6 +28,7 @@ ASSUMPTIONS = [
 ]
 F1 = dict(k=2, n=3, seg=21, size=61)
 F2 = dict(k=3, n=4, seg=60, size=64)
+F0 = dict(k=2, n=3, seg=64, size=61)      # ONE segment: every hash tree has a single leaf (= its root)
 
 
 def placements(f, victim, mode):
@@ -113,8 +115,10 @@ def run(tier, seed):
     if tier == "quick":
         cases = catalogue(F1, seed, tier, [0, 1, 2], ["needed"]) + catalogue(F1, seed, tier, [1], ["intact"], flip_step=1, trunc_step=7)
         cases += subst_cases(F1, seed) + subset_cases(F1)
+        cases += catalogue(F0, seed, tier, [0], ["needed"], flip_step=1, trunc_step=5) + subset_cases(F0)
     else:
-        cases = catalogue(F1, seed, tier, [0, 1, 2], ["needed", "intact"])
+        cases = catalogue(F0, seed, tier, [0, 1, 2], ["needed", "intact"]) + subst_cases(F0, seed) + subset_cases(F0)
+        cases += catalogue(F1, seed, tier, [0, 1, 2], ["needed", "intact"])
         cases += catalogue(F2, seed, tier, [0, 3], ["needed", "intact"])
         cases += subst_cases(F1, seed) + subst_cases(F2, seed) + subset_cases(F1) + subset_cases(F2)
     res = common.pmap(lib_imm.explore_chunk, cases, (seed, 0, 0, None, "C02"))
